@@ -517,6 +517,14 @@ func CanonOp(op M) M {
 				continue
 			}
 		}
+		if l, ok := v.([]any); ok && k == "regs" {
+			nl := []any{}
+			for _, r := range l {
+				nl = append(nl, CanonOp(M{"x": r})["x"])
+			}
+			out[k] = nl
+			continue
+		}
 		out[k] = v
 	}
 	return out
